@@ -164,7 +164,7 @@ def run(ctx):
                     'protocol (Fresh, MemSound); TLC witness schedules are replayed on real streams (reusing stream, non-reusing twin, scaled twin) and the split, '
                     'activities, proportionality and labelling judged by TLC; random lle histories over 2-5 chemicals with every method; random sle histories '
                     '(3 solutes, 0-3 solvents, given / computed solubility, 250-450 K)')
-    return 'model_checking', cov, ASSUME
+    return 'exploration', cov, ASSUME
 
 
 def replay(ctx, data):
